@@ -163,6 +163,7 @@ func runTask(ti int, spec *wire.TaskSpec) []wire.OpResult {
 			fmt.Fprintf(progress, "OP %d %d\n", ti, i)
 			progress.Flush()
 		}
+		simrt.BeginCall()
 		out[i] = runOp(ts, &spec.Ops[i])
 		if out[i].Outcome == "panic" || out[i].Outcome == "budget" {
 			dead = true
